@@ -20,6 +20,12 @@ and is judged three ways:
     running transactions and of session clients that hold a server are served during the pause,
     and after RESUME every held statement reaches the backend and is answered;
   * "needs a checkout" is scenario knowledge (mode, in transaction, already served), not the model.
+Further families: RELOADs that remove / re-add / replace a pool (Pause/ReloadModel: ReloadRemove, ReloadFresh,
+ReloadShared; a session of a removed pool is told "No pool configured", w-iv); pipelining (several statements in ONE
+TCP write, the first blocked on the mock's gate while PAUSE is acknowledged: in transaction mode every further
+statement is a new gate passage and is held; a session client keeps its server); custom commands (SET SERVER ROLE,
+SHOW SHARD, ...) are answered by pgcat at once, paused or not (w-v); a RELOAD that is refused (validate_config, a pool
+that cannot be built) leaves the pause and the waiters untouched (no model step).
 """
 import json, os, time
 import vlib
